@@ -19,20 +19,21 @@ import numpy as np
 
 from .. import taps, gen
 from ..ctx import Skip, digest
-from ..snap import snap, is_obs, is_cobs
+from ..snap import snap, is_obs, is_cobs, any_digest
 from ..compare import compare_obs, drop_null_cov
 from ..ref import matid, jackmat, dense
 
 ID = 'C10'
 LEVEL = 'exploration'
 OPS = ['matmul', 'inv', 'cholesky', 'det', 'eigh', 'eig', 'eigv', 'pinv', 'svd', 'jack_matmul', 'einsum']
-DECIDING = ['tap:' + o for o in OPS] + ['entries_compared_with_explicit_product', 'identity_residuals_judged', 'jackknife_entries_judged']
+DECIDING = ['tap:' + o for o in OPS] + ['histories_judged', 'entries_compared_with_explicit_product', 'identity_residuals_judged', 'jackknife_entries_judged']
 RULE = ('cases: matrices 1x1..4x4 (rectangular for svd / pinv / jack_matmul / einsum; matmul needs equal shapes) whose central values are built from a prescribed spectrum '
         '(condition number <= ~10, spectral gaps >= ~0.5), entries Obs / CObs / mixed with plain numbers (float, int, complex), chains: '
         'regular (identical lists, 1-2 replicas), irregular (gapped / irregular lists, nested / overlapping between entries, replica subsets), '
         'two ensembles (+ covariance inputs); operations matmul (2-4 factors), inv, cholesky, det, eigh, eig, eigv, pinv, svd, jack_matmul, '
         'einsum (14 contraction forms, explicit and implicit output subscripts incl. free labels not in alphabetical order of appearance; single chain with regular / irregular list, operands on two different '
-        'chains of equal length as a negative row); non-trivial: an identity whose terms have non-zero fluctuations was judged on a '
+        'chains of equal length as a negative row); call histories (original, twin sharing shape / first / last entry / names / lists / '
+        'central values, original again); non-trivial: an identity whose terms have non-zero fluctuations was judged on a '
         'matrix of dimension >= 2 (1x1 cases count when an entry is complex or lists had to be aligned); distinct = digest of (operation, '
         'shapes, central values, chain layout)')
 ASSUMPTIONS = ['products: direct arithmetic, 1e-11 of sum |gradient| max|fluctuation|; decompositions: 1e-10 x condition number (inverse relative gap) x that scale',
@@ -413,6 +414,40 @@ def emulate_type_inference_from_first_entry(desc, kinds):
     return out
 
 
+def twin_of(x):
+    """an entry with the same names, configuration lists and central value but different fluctuations"""
+    if is_cobs(x):
+        return PE.CObs(twin_of(x.real) if is_obs(x.real) else x.real, twin_of(x.imag) if is_obs(x.imag) else x.imag)
+    return -0.5 * x + 1.5 * x.value
+
+
+def history_check(ctx, rng, fn, arrays, op, judge=None, baseline=None):
+    """Call fn on the arrays, then on twin arrays that share shape, first and last entry objects, names, lists and central values
+    (one interior entry has other fluctuations), then on the original again: the results for the original must be identical
+    whatever was computed in between (identity- or summary-keyed caching); the twin is judged by the same oracle."""
+    cand = [(k, idx) for k, a in enumerate(arrays) if isinstance(a, np.ndarray) and a.dtype == object
+            for idx in np.ndindex(a.shape) if (is_obs(a[idx]) or is_cobs(a[idx])) and idx != (0, 0) and idx != tuple(d - 1 for d in a.shape)]
+    if not cand:
+        return
+    k, idx = cand[int(rng.integers(0, len(cand)))]
+    twins = [np.array(a, copy=True) for a in arrays]
+    twins[k][idx] = twin_of(arrays[k][idx])
+    if twins[k].shape[0] == twins[k].shape[1] and arrays[k][idx[::-1]] is arrays[k][idx]:
+        twins[k][idx[::-1]] = twins[k][idx]                    # keep symmetric matrices symmetric
+    first = fn(*[np.array(a, copy=True) for a in arrays])
+    if judge is not None:
+        judge(ctx, twins)
+    else:
+        other = fn(*[np.array(a, copy=True) for a in twins])
+        # no separate oracle here: at least the changed fluctuations must show up in the result
+        ctx.require(any_digest(other) != any_digest(first), op + ':result-ignores-a-changed-entry', {'op': op, 'changed_entry': (k, idx)})
+    again = fn(*[np.array(a, copy=True) for a in arrays])
+    ctx.count('histories_judged')
+    if baseline is not None:
+        ctx.require(any_digest(first) == any_digest(baseline), op + ':result-depends-on-call-history', {'op': op, 'note': 'differs from the first (judged) call'})
+    ctx.require(any_digest(first) == any_digest(again), op + ':result-depends-on-call-history', {'op': op, 'changed_entry': (k, idx)})
+
+
 INT_TAG = 'derived_observable:plain-int-as-first-entry-truncates-all-central-values-to-integers'
 
 
@@ -551,6 +586,8 @@ def case_matmul(ctx, rng, nfac, entries, layout):
         c.sample({'op': 'matmul', 'factors': nfac, 'n': n, 'entries': entries, 'layout': layout, 'central': [central(d) for d in descs],
                   'result00': got[0, 0].real.value if is_cobs(got[0, 0]) else got[0, 0].value})
     run_with_diagnosis(ctx, ops, judge)
+    if n >= 2 and rng.random() < 0.3 and type(np.asarray(ops[0], dtype=object)[0, 0]) is not int:
+        history_check(ctx, rng, pe.linalg.matmul, ops, 'matmul', judge)
 
 
 # ------------------------------------------------------------------------------------------
@@ -598,6 +635,8 @@ def case_inv(ctx, rng, n, entries, layout):
         nontrivial(c, tape, 'inv', n, [mc], chains)
         c.sample({'op': 'inv', 'n': n, 'entries': entries, 'layout': layout, 'central': mc, 'cond': cond})
     run_with_diagnosis(ctx, [a], judge)
+    if n >= 2 and rng.random() < 0.3 and type(a[0, 0]) is not int:
+        history_check(ctx, rng, pe.linalg.inv, [a], 'inv', judge)
 
 
 def case_cholesky(ctx, rng, n, entries, layout):
@@ -723,6 +762,8 @@ def case_eigh(ctx, rng, op, n, entries, layout):
         if w is not None:
             c.sample({'op': op, 'n': n, 'entries': entries, 'layout': layout, 'central': mc, 'eigenvalues': [x.value for x in w]})
     run_with_diagnosis(ctx, [a], judge)
+    if n >= 2 and rng.random() < 0.3 and type(a[0, 0]) is not int:
+        history_check(ctx, rng, pe.linalg.eigh if op == 'eigh' else pe.linalg.eigv, [a], op, judge)
 
 
 def case_eig(ctx, rng, n, entries, layout):
@@ -966,6 +1007,8 @@ def case_jack(ctx, rng, nfac, entries, layout):
     tape = matid.Tape()
     [matid.matrix_duals(tape, d) for d in descs]
     nontrivial(ctx, tape, 'jack_matmul', dims, [central(d) for d in descs], chains)
+    if rng.random() < 0.3:
+        history_check(ctx, rng, pe.linalg.jack_matmul, ops, 'jack_matmul', baseline=got)
     ctx.sample({'op': 'jack_matmul', 'dims': dims, 'entries': entries, 'layout': layout, 'N': nconf})
 
 
